@@ -17,6 +17,12 @@
 //! quiescence, per continuity: live == log filtered == sidecar file == `replay_events()` (cache and
 //! log path) == thread SSE replay; per session / task: live == log == snapshot file and
 //! `rip_log::verify_snapshot` passes. Frame-for-frame JSON equality in order.
+//!
+//! (B, directed sweep — c03_depth.rs) one short end-to-end run per JSON nesting depth D (every D around the
+//! readers' and rip's own limits in quick, every D in 2..=140 in thorough; sharded by depth) and per door through
+//! which nested JSON enters a frame (provider event payload, model-supplied tool-call arguments, tool envelope
+//! typed as input, `POST /tasks` args; arrays / objects / seeded mix), each judged with the whole part-B oracle:
+//! live == log, snapshot reads back and == log, verify_snapshot, continuity places, whole-store replay.
 
 use crate::report::{Cfg, Report};
 use crate::truth;
@@ -27,6 +33,8 @@ use serde_json::{json, Value};
 mod gen;
 #[path = "c03_hist.rs"]
 mod hist;
+#[path = "c03_depth.rs"]
+mod depth;
 
 use gen::{documented_stream_kind, variant_name, Flavor, Gen, FLAVORS, N_VARIANTS};
 
@@ -38,7 +46,9 @@ pub fn run(cfg: &Cfg) -> i32 {
          through serde, EventLog append/replay and snapshot write/read; distinct = distinct (variant, flavour, \
          presence/shape signature); (B) seeded histories (actor threads over continuities + sessions + tasks via \
          engine and router, live collectors from the first frame, restart, cache deletion) compared place by \
-         place; distinct = distinct (stream kind, frame-type sequence) of the compared streams",
+         place; distinct = distinct (stream kind, frame-type sequence) of the compared streams; plus a directed sweep: \
+         every JSON nesting depth around the limits × every door nested JSON enters a frame through × shape, one \
+         end-to-end run each, same place-by-place oracle; distinct = (door, shape, depth, how the payload was recorded)",
     );
     r.assume("floats in generated payloads are dyadic (serde_json without float_roundtrip does not promise more)");
     if let Some(path) = cfg.replay.clone() {
@@ -49,8 +59,14 @@ pub fn run(cfg: &Cfg) -> i32 {
             Some("B") => {
                 let case = w.get("case").and_then(|x| x.as_u64()).unwrap_or(0);
                 let rt = crate::fixture::runtime(8);
-                let mut rng = crate::prng::Rng::derive(seed, 1_000_000 + case);
-                hist::one_history(cfg, &mut r, &rt, &mut rng, case);
+                let mut c2 = cfg.clone();
+                c2.seed = seed;
+                if case >= depth::SWEEP_CASE_BASE {
+                    depth::one_depth(&c2, &mut r, &rt, (case - depth::SWEEP_CASE_BASE) as usize);
+                } else {
+                    let mut rng = crate::prng::Rng::derive(seed, 1_000_000 + case);
+                    hist::one_history(&c2, &mut r, &rt, &mut rng, case);
+                }
             }
             _ => {
                 let case = w.get("case").and_then(|x| x.as_u64()).unwrap_or(0);
@@ -61,6 +77,12 @@ pub fn run(cfg: &Cfg) -> i32 {
         return r.finish(cfg);
     }
 
+    // `rv C03 --depth-sweep-only`: just the directed nesting-depth sweep of part B (development aid)
+    if cfg.has_flag("--depth-sweep-only") {
+        let rt = crate::fixture::runtime(8);
+        depth::sweep(cfg, &mut r, &rt);
+        return r.finish(cfg);
+    }
     // ---- (A) ----
     // directed inputs run in every shard that owns case 0 (deterministic, cheap)
     if cfg.mine(0) {
@@ -91,6 +113,8 @@ pub fn run(cfg: &Cfg) -> i32 {
     // ---- (B) ----
     let rt = crate::fixture::runtime(8);
     let s = crate::sched::sched();
+    // directed sweep over payload nesting depths (sharded by depth; every depth is run by exactly one shard)
+    depth::sweep(cfg, &mut r, &rt);
     let mut case = 0u64;
     let max_cases = cfg.tier.pick(400u64, 1_000_000u64);
     while case < max_cases && !r.over(cfg) {
@@ -572,9 +596,9 @@ fn directed_frames(r: &mut Report) {
     r.count("a_compat_alias_inputs", 6);
     // nesting: payloads as deep as serde_json itself accepts when the payload is parsed on its own
     // (tool args / provider data arrive that way) must survive being embedded in a frame
-    // (rip caps payload nesting at 100 levels when it builds these frames — rip_provider_openresponses::
-    // MAX_FRAME_PAYLOAD_NESTING — so deeper payloads are not frames the system can emit; the end-to-end
-    // probe in part B checks that a deeper provider payload indeed never reaches the log unreadable)
+    // (rip caps provider payload nesting when it builds these frames, so deeper payloads are not frames the
+    // provider path can emit; which depths the system does emit, door by door, and whether every place still
+    // reads them back is judged end to end by the depth sweep of part B, c03_depth.rs)
     for depth in [16usize, 64, 90, 99, 100] {
         let mut text = String::new();
         for _ in 0..depth {
